@@ -81,6 +81,7 @@ struct Sim {
     sq_khead: *const AtomicU32,
     sq_ktail: *const AtomicU32,
     sq_array: *const AtomicU32,
+    sq_kflags: *const AtomicU32,
     sqes: *mut u8,
     cq_khead: *const AtomicU32,
     cq_ktail: *const AtomicU32,
@@ -185,6 +186,7 @@ impl Sim {
             sq_khead,
             sq_ktail,
             sq_array,
+            sq_kflags,
             sqes,
             cq_khead,
             cq_ktail,
@@ -407,8 +409,25 @@ impl Sim {
         json!({"ev":"post","k":k,"stamps":stamps})
     }
 
+    /// the kernel side sets the flags word of the submission ring (IORING_SQ_NEED_WAKEUP = 1, CQ_OVERFLOW = 2,
+    /// TASKRUN = 4), the application asks needs_wakeup()
+    fn wakeup(&mut self, flags: u32) -> Value {
+        unsafe { (*self.sq_kflags).store(flags, Ordering::Release) };
+        let ring = &*self.ring;
+        let r = guarded(|| ring.needs_wakeup());
+        unsafe { (*self.sq_kflags).store(0, Ordering::Release) };
+        match r {
+            Ok(b) => json!({"ev":"wakeup","flags":flags,"ret":b}),
+            Err(_) => {
+                self.dead = true;
+                json!({"ev":"get","ret":PANIC})
+            }
+        }
+    }
+
     fn step(&mut self, op: &str, arg: i64) -> Value {
         let mut ev = match op {
+            "wakeup" => self.wakeup(arg as u32),
             "get" => self.get(),
             "fill" => self.fill(arg),
             "flush" => self.flush(),
